@@ -28,7 +28,8 @@ AXES = {
     'eps': [1e-6, 1e-3, 1e-10],
     'prec': [None, 'c', 'r'],
     'solver': ['direct', 'gmres', 'bicgstab'],
-    'x0': ['none', 'rank2'],
+    'x0': ['none', 'rank2', 'rank1', 'rank5'],
+    'bscale': [1.0, 1e6, 1e-6],
     'seed': [0, 1, 2],
 }
 SIZES = {'cube12': (12, 12, 12, 12, 12), 'big': (12, 10, 11, 12, 10), '343': (3, 4, 3, 4, 3), '222': (2, 2, 2, 2, 2), '546': (5, 4, 6, 5, 4), '263': (2, 6, 3, 2, 6), 'b': (8, 12, 7, 9, 10)}
@@ -141,9 +142,12 @@ def make_system(cfg):
             A = torchtt.eye(N) + (Bh @ Bh.t())
     sb = space.tensor_struct(N, [1] + [cfg['rhs']] * (d - 1) + [1], 'f64', 'gauss')
     b, cb = build(sb, 'b', 0)
+    if cfg.get('bscale', 1.0) != 1.0:
+        b = b * float(cfg['bscale'])          # |b| far from 1: the residual bound is relative
     x0 = None
-    if cfg['x0'] == 'rank2':
-        x0 = build(space.tensor_struct(N, [1] + [2] * (d - 1) + [1], 'f64', 'gauss'), 'x0', 0)[0]
+    if cfg['x0'] != 'none':
+        r0 = int(cfg['x0'][4:])
+        x0 = build(space.tensor_struct(N, [1] + [r0] * (d - 1) + [1], 'f64', 'gauss'), 'x0', 0)[0]
     return A, b, x0, N
 
 
